@@ -16,6 +16,8 @@ from fractions import Fraction
 import numpy as np
 
 REPO_SRC = "/repo/src"
+if hasattr(sys, "set_int_max_str_digits"):
+    sys.set_int_max_str_digits(0)
 if REPO_SRC not in sys.path:
     sys.path.insert(0, REPO_SRC)
 
@@ -207,7 +209,10 @@ class Env:
         out = {}
         for k, v in self.vars.items():
             if isinstance(v, SV):
-                out[k] = fr_str(core.model_value(model, v))
+                try:
+                    out[k] = fr_str(core.model_value(model, v))
+                except ValueError:
+                    out[k] = "0"
         out.update(self.extra_inputs)
         return out
 
@@ -372,7 +377,7 @@ def run_config(prop, cfg, known=(), max_paths=None, validate=True):
         if kind == "concretised":
             out["errors"].append(f"not encodable: {payload}")
             return
-        r, m = ctx.model(env.nice) if env is not None and env.nice else ("unknown", None)
+        r, m = ctx.model(env.nice) if env is not None and env.nice and not os.environ.get("SYMX_NO_NICE") else ("unknown", None)
         if r != "sat":
             r, m = ctx.model()
         if r == "unsat":
@@ -450,10 +455,14 @@ def run_config(prop, cfg, known=(), max_paths=None, validate=True):
                             break
                         for x, y in zip(f1, f2):
                             if isinstance(x, SV):
-                                x = core.model_value(m, x)
+                                try:
+                                    x = core.model_value(m, x)
+                                except ValueError as e:
+                                    bad = f"observation {n1}: model does not evaluate the symbolic value ({str(e)[:200]})"
+                                    break
                             cx, cy = core._const(x), core._const(y)
                             if (cx is None or cy is None) and x != y or (cx is not None and cx != cy):
-                                bad = f"observation {n1}: symbolic {x} vs concrete {y}"
+                                bad = f"observation {n1}: symbolic {str(x)[:80]} vs concrete {str(y)[:80]}"
                                 break
                         if bad:
                             break
@@ -517,7 +526,13 @@ def run_pool(prop_mod, cfgs, known, jobs, cfg_timeout_s, progress=None):
                 p.join(5)
                 done.append(i)
             elif not p.is_alive():
-                results[i] = _dead(cfg, f"worker exited with code {p.exitcode}")
+                if pr.poll(0.2):  # the result may have arrived between the two tests
+                    try:
+                        results[i] = pr.recv()
+                    except EOFError:
+                        results[i] = _dead(cfg, "worker died without a result")
+                else:
+                    results[i] = _dead(cfg, f"worker exited with code {p.exitcode}")
                 done.append(i)
             elif time.time() - t0 > cfg_timeout_s:
                 p.kill()
